@@ -111,6 +111,25 @@ where
 `ByteArray`.  The *choice* among them (by serialised size) is deliberately not modelled: the
 theorem covers every candidate. -/
 
+/-! ## `_to_smallest_integer_type` (compress.py) -/
+
+/-- Candidate types in the order the code tries them: (name, min, max). -/
+def unsignedCands : List (String × Int × Int) :=
+  [("u8", 0, 255), ("u16", 0, 65535), ("u32", 0, 4294967295), ("u64", 0, 18446744073709551615)]
+def signedCands : List (String × Int × Int) :=
+  [("i8", -128, 127), ("i16", -32768, 32767), ("i32", -2147483648, 2147483647),
+   ("i64", -9223372036854775808, 9223372036854775807)]
+
+def fitsCand (xs : List Int) (c : String × Int × Int) : Bool :=
+  xs.all fun x => decide (c.2.1 ≤ x ∧ x ≤ c.2.2)
+
+/-- The first unsigned type holding every value if none is negative, else the first signed one;
+`none`: `array.min()` of an empty array / out of bounds for all types (both `ValueError`). -/
+def toSmallest (xs : List Int) : Option (String × Int × Int) :=
+  if xs.isEmpty then none
+  else
+    ((if xs.all (fun x => decide (0 ≤ x)) then unsignedCands else []) ++ signedCands).find? (fitsCand xs)
+
 structure Chain where
   delta : Bool
   rle : Bool
